@@ -1,0 +1,79 @@
+//go:build verif
+
+package async
+
+// Contracts for govc (contract-based deductive verification, see /verif/DESIGN.md).
+// Comments only; compiled only with the build tag `verif`.
+
+//@ arith int
+//@ property C12 C13
+// (derived from syncx/pipe/q/zz_contracts_verif.go by /verif/govc/schema/gen_queues.py)
+//@ assumption the package-level error values ErrClosed / ErrFull / ErrSync are the distinct non-nil values created by errors.New at init
+//
+// The queue content is the ranked set of list elements of reqList (container/list extern model:
+// smaller rank = closer to the front); content, `closed` and the condition variable's ghost counters are
+// protected by `lock`.
+//@ guarded Q.closed by Q.lock
+//@ cond Q.cond uses Q.lock
+//@ monitor Q.lock
+//@   havoc self.reqList.lmem, self.reqList.lcnt, list.Element.lrk, list.Element.Value
+//@   invariant #shape self.reqList != nil && lwf(self.reqList) && sleepers(self.cond) >= 0 && woken(self.cond) >= 0
+//@   invariant #sleeponlyifempty sleepers(self.cond) > 0 ==> self.reqList.lcnt == 0 && !self.closed
+//
+//@ pure errsOK() bool = ErrClosed != nil && ErrFull != nil && ErrSync != nil && ErrClosed != ErrFull && ErrClosed != ErrSync && ErrFull != ErrSync
+//@ pure same(l *list.List) bool = l.lcnt == cs(l.lcnt) && l.lmem == cs(l.lmem) && (forall e *list.Element :: { e.lrk } cs(l.lmem[e]) ==> e.lrk == cs(e.lrk)) && (forall e *list.Element :: { e.Value } cs(l.lmem[e]) ==> e.Value == cs(e.Value))
+//@ pure kept(l *list.List) bool = (forall e *list.Element :: { e.lrk } cs(l.lmem[e]) ==> e.lrk == cs(e.lrk)) && (forall e *list.Element :: { e.Value } cs(l.lmem[e]) ==> e.Value == cs(e.Value))
+//
+//@ func Q.Add
+//@   requires !held(a.lock) && a.reqList != nil && errsOK()
+//@   ensures #closed cs(a.closed) ==> result == ErrClosed && same(a.reqList)
+//@   ensures #full !cs(a.closed) && a.size > 0 && cs(a.reqList.lcnt) >= a.size ==> result == ErrFull && same(a.reqList)
+//@   ensures #added !cs(a.closed) && !(a.size > 0 && cs(a.reqList.lcnt) >= a.size) ==> result == nil && a.reqList.lcnt == cs(a.reqList.lcnt) + 1 && kept(a.reqList)
+//@   ensures #atback result == nil ==> forall e *list.Element :: { a.reqList.lmem[e] } a.reqList.lmem[e] ==> (cs(a.reqList.lmem[e]) || (e.Value == req && forall x *list.Element :: { cs(a.reqList.lmem[x]) } cs(a.reqList.lmem[x]) ==> x.lrk < e.lrk))
+//@   ensures #nolost forall e *list.Element :: { cs(a.reqList.lmem[e]) } cs(a.reqList.lmem[e]) ==> a.reqList.lmem[e]
+//@   ensures #closedsame a.closed == cs(a.closed)
+//@   modifies Q.closed, a.reqList.lmem, a.reqList.lcnt, list.Element.lrk, list.Element.Value
+//
+//@ func Q.AddPrior
+//@   requires !held(a.lock) && a.reqList != nil && errsOK()
+//@   ensures #closed cs(a.closed) ==> result == ErrClosed && same(a.reqList)
+//@   ensures #added !cs(a.closed) ==> result == nil && a.reqList.lcnt == cs(a.reqList.lcnt) + 1 && kept(a.reqList)
+//@   ensures #atfront result == nil ==> forall e *list.Element :: { a.reqList.lmem[e] } a.reqList.lmem[e] ==> (cs(a.reqList.lmem[e]) || (e.Value == req && forall x *list.Element :: { cs(a.reqList.lmem[x]) } cs(a.reqList.lmem[x]) ==> e.lrk < x.lrk))
+//@   ensures #nolost forall e *list.Element :: { cs(a.reqList.lmem[e]) } cs(a.reqList.lmem[e]) ==> a.reqList.lmem[e]
+//@   modifies Q.closed, a.reqList.lmem, a.reqList.lcnt, list.Element.lrk, list.Element.Value
+//
+//@ func Q.Close
+//@   requires !held(a.lock) && a.reqList != nil
+//@   ensures #closed a.closed && same(a.reqList)
+//@   modifies Q.closed, a.reqList.lmem, a.reqList.lcnt, list.Element.lrk, list.Element.Value
+//
+//@ func Q.pop
+//@   requires !held(a.lock) && a.reqList != nil && errsOK()
+//@   ensures #emptyclosed cs(a.reqList.lcnt) == 0 ==> result0 == nil && result1 == ErrClosed && cs(a.closed) && same(a.reqList)
+//@   ensures #checkclose cs(a.reqList.lcnt) > 0 && checkClose && cs(a.closed) ==> result0 == nil && result1 == ErrClosed && same(a.reqList)
+//@   ensures #popped cs(a.reqList.lcnt) > 0 && !(checkClose && cs(a.closed)) ==> result1 == nil && a.reqList.lcnt == cs(a.reqList.lcnt) - 1 && kept(a.reqList)
+//@   ensures #front result1 == nil ==> forall e *list.Element :: { cs(a.reqList.lmem[e]) } cs(a.reqList.lmem[e]) && (forall x *list.Element :: { cs(a.reqList.lmem[x]) } cs(a.reqList.lmem[x]) ==> cs(e.lrk) <= cs(x.lrk)) ==> result0 == cs(e.Value) && a.reqList.lmem == store(cs(a.reqList.lmem), e, false)
+//@   ensures #nosyncerr result1 != ErrSync
+//@   modifies Q.closed, a.reqList.lmem, a.reqList.lcnt, list.Element.lrk, list.Element.Value
+//@   loop 1
+//@     invariant wheld(a.lock) && a.reqList != nil && lwf(a.reqList) && sleepers(a.cond) >= 0 && woken(a.cond) >= 0 && (sleepers(a.cond) > 0 ==> a.reqList.lcnt == 0 && !a.closed)
+//@     invariant a.reqList.lcnt == cs(a.reqList.lcnt) && a.reqList.lmem == cs(a.reqList.lmem) && a.closed == cs(a.closed) && kept(a.reqList)
+//
+//@ func Q.Pop
+//@   requires !held(a.lock) && a.reqList != nil && errsOK()
+//@   ensures #emptyclosed cs(a.reqList.lcnt) == 0 ==> result0 == nil && result1 == ErrClosed && cs(a.closed) && same(a.reqList)
+//@   ensures #checkclose cs(a.reqList.lcnt) > 0 && cs(a.closed) ==> result0 == nil && result1 == ErrClosed && same(a.reqList)
+//@   ensures #popped cs(a.reqList.lcnt) > 0 && !(cs(a.closed)) ==> result1 == nil && a.reqList.lcnt == cs(a.reqList.lcnt) - 1 && kept(a.reqList)
+//@   ensures #front result1 == nil ==> forall e *list.Element :: { cs(a.reqList.lmem[e]) } cs(a.reqList.lmem[e]) && (forall x *list.Element :: { cs(a.reqList.lmem[x]) } cs(a.reqList.lmem[x]) ==> cs(e.lrk) <= cs(x.lrk)) ==> result0 == cs(e.Value) && a.reqList.lmem == store(cs(a.reqList.lmem), e, false)
+//@   ensures #nosyncerr result1 != ErrSync
+//@   modifies Q.closed, a.reqList.lmem, a.reqList.lcnt, list.Element.lrk, list.Element.Value
+//
+//@ func Q.PopAnyway
+//@   requires !held(a.lock) && a.reqList != nil && errsOK()
+//@   ensures #emptyclosed cs(a.reqList.lcnt) == 0 ==> result0 == nil && result1 == ErrClosed && cs(a.closed) && same(a.reqList)
+//@   ensures #checkclose cs(a.reqList.lcnt) > 0 && false ==> result0 == nil && result1 == ErrClosed && same(a.reqList)
+//@   ensures #popped cs(a.reqList.lcnt) > 0 && !(false) ==> result1 == nil && a.reqList.lcnt == cs(a.reqList.lcnt) - 1 && kept(a.reqList)
+//@   ensures #front result1 == nil ==> forall e *list.Element :: { cs(a.reqList.lmem[e]) } cs(a.reqList.lmem[e]) && (forall x *list.Element :: { cs(a.reqList.lmem[x]) } cs(a.reqList.lmem[x]) ==> cs(e.lrk) <= cs(x.lrk)) ==> result0 == cs(e.Value) && a.reqList.lmem == store(cs(a.reqList.lmem), e, false)
+//@   ensures #nosyncerr result1 != ErrSync
+//@   modifies Q.closed, a.reqList.lmem, a.reqList.lcnt, list.Element.lrk, list.Element.Value
+//
